@@ -671,15 +671,21 @@ pub fn run(args: &Args) {
         for (fc, kinds) in [(false, vec![2u8, 11, 12, 14, 200, 20]), (true, vec![16u8, 200, 20])] {
             for k in kinds { for ct in [23u8, 21, 22, 20] { scripts.push(Script { ce: 'o', se: 'n', rules: vec![Rule { from_client: fc, typ: k, act: Act::PreInject(ct) }] }); } }
         }
+        // close() at every stage of the handshake (before keys; between key derivation and Connected, where the alert
+        // must take the context's sequence number and not reuse the Finished record's): nonce oracle over all sealed records
+        for (fc, k, a) in [(false, 2u8, Act::CloseClient), (false, 14, Act::CloseClient), (false, 200, Act::CloseClient), (false, 20, Act::CloseClient),
+                           (true, 16, Act::CloseServer), (true, 200, Act::CloseServer), (true, 20, Act::CloseServer)] {
+            scripts.push(Script { ce: 'o', se: 'n', rules: vec![Rule { from_client: fc, typ: k, act: a }] });
+        }
         for sc in &scripts {
             for _ in 0..3 {
                 if let Some(o) = rt.block_on(run_script(sc)) {
                     for (i, l) in &o.lines { run.case("hs", i, l, true); }
                     run.count("handshake_phase_injection_scripts");
-                    for (sig, d) in o.fails { if sig.starts_with("rec:") || sig.starts_with("noconn:") || sig.starts_with("state:") { run.fail(&sig, &format!("hs {d}"), &sc.text()); } }
+                    for (sig, d) in o.fails { if sig.starts_with("rec:") || sig.starts_with("noconn:") || sig.starts_with("state:") || sig.starts_with("nonce:") { run.fail(&sig, &format!("hs {d}"), &sc.text()); } }
                     // a discarded record is as good as absent: the handshake around it must still complete
                     // (judged where the target already holds keys — before that a clear-text handshake message is legal input)
-                    if matches!(sc.rules[0].typ, 200 | 20) && !o.tags.iter().any(|t| t == "both_connected") {
+                    if matches!(sc.rules[0].act, Act::PreInject(_)) && matches!(sc.rules[0].typ, 200 | 20) && !o.tags.iter().any(|t| t == "both_connected") {
                         let fin = o.tags.iter().find(|t| t.starts_with("final:")).cloned().unwrap_or_default();
                         run.fail(&format!("rec:handshake-phase:clear-text-record-disturbed-the-handshake:{}", sc.rules[0].typ), &format!("hs {}", sc.text()), &fin);
                     }
